@@ -20,3 +20,5 @@ CONSTANTS
   Spellings = {"canon", "cap", "upper", "mixed"}
   MaskDecoded = TRUE
   ReadFailIsError = TRUE
+  Shapes = {"plain"}
+  RejectQuotesValue = FALSE
